@@ -364,8 +364,13 @@ func netVerdict(ctx *Ctx, c c05Case, rr *RunRes) {
 			}
 		}
 		if c.Dag.balanced() {
-			opAcceptance(ctx, c, rr, names, ins, src)
+			opAcceptance(ctx, c, rr, names, ins, src, true)
 		}
+	}
+	if realOK && !c.Dag.balanced() {
+		// unbalanced streams: processes may be left behind blocked, so only the operations that did happen are
+		// replayed (no returns): each must be enabled in the model in per-goroutine order
+		opAcceptance(ctx, c, rr, names, ins, src, false)
 	}
 }
 
@@ -373,7 +378,7 @@ func netVerdict(ctx *Ctx, c c05Case, rr *RunRes) {
 // acceptance and head-of-queue dequeue), taken per goroutine in program order, must be a run of the Lean model at
 // the granularity of channel operations (Model/NetFine.lean) that ends with every process returned. The model's
 // theorems quantify over all interleavings, so only the per-goroutine order is taken from the trace.
-func opAcceptance(ctx *Ctx, c c05Case, rr *RunRes, names, ins, src []string) {
+func opAcceptance(ctx *Ctx, c c05Case, rr *RunRes, names, ins, src []string, complete bool) {
 	idx := map[string]int{}
 	for i, nm := range names {
 		idx[nm] = i
@@ -410,6 +415,7 @@ func opAcceptance(ctx *Ctx, c c05Case, rr *RunRes, names, ins, src []string) {
 	fwd := map[string][]string{}    // per process / source: send ..., forward, ...
 	round := map[string]int{}
 	open := map[string]bool{}   // a dequeued task whose outputs are being sent
+	sendsOpen := map[string]int{} // ... and how many of its sends have completed
 	sentTo := map[string]map[string]bool{}
 	procOf := func(port string) string {
 		if i := strings.LastIndex(port, "."); i >= 0 {
@@ -449,6 +455,7 @@ func opAcceptance(ctx *Ctx, c c05Case, rr *RunRes, names, ins, src []string) {
 				fwd[v] = append(fwd[v], fmt.Sprintf("f:%d", idx[v]))
 			}
 			open[v] = true
+			sendsOpen[v] = 0
 		case "ch.sent":
 			sp, rp := e.Args[0], e.Args[1]
 			v := procOf(sp)
@@ -475,31 +482,45 @@ func opAcceptance(ctx *Ctx, c c05Case, rr *RunRes, names, ins, src []string) {
 				sentTo[v][conn] = true
 			}
 			fwd[v] = append(fwd[v], "s:"+conn)
+			sendsOpen[v]++
 		}
 	}
 	threads := []string{}
 	for i, nm := range names {
 		nd := c.Dag.node(nm)
 		if nd != nil && nd.Kind == "proc" {
-			if open[nm] {
+			if open[nm] && (complete || sendsOpen[nm] == nconn[i]) {
 				fwd[nm] = append(fwd[nm], fmt.Sprintf("f:%d", i))
 			}
-			threads = append(threads, strings.Join(append(reader[nm], fmt.Sprintf("t:%d", i)), ","), strings.Join(fwd[nm], ","))
+			if complete {
+				reader[nm] = append(reader[nm], fmt.Sprintf("t:%d", i))
+			}
+			threads = append(threads, strings.Join(reader[nm], ","), strings.Join(fwd[nm], ","))
 			continue
 		}
 		// sources
-		if sentTo[nm] != nil {
+		if sentTo[nm] != nil && (complete || len(sentTo[nm]) == nconn[i]) {
 			fwd[nm] = append(fwd[nm], fmt.Sprintf("f:%d", i))
-		} else if nconn[i] == 0 {
+		} else if nconn[i] == 0 && complete {
 			var k int
 			fmt.Sscan(src[i], &k)
 			for j := 0; j < k; j++ {
 				fwd[nm] = append(fwd[nm], fmt.Sprintf("c:%d", i), fmt.Sprintf("f:%d", i))
 			}
 		}
-		threads = append(threads, strings.Join(append(fwd[nm], fmt.Sprintf("t:%d", i)), ","))
+		if complete {
+			fwd[nm] = append(fwd[nm], fmt.Sprintf("t:%d", i))
+		}
+		threads = append(threads, strings.Join(fwd[nm], ","))
 	}
 	resp := ctx.Drv.Ask("fine.accept", fmt.Sprint(len(names)), strings.Join(ins, ";"), strings.Join(src, ","), fmt.Sprint(c.Buf), strings.Join(threads, ";"))
+	if !complete {
+		ctx.Res.Count("channel-ops=checked(unbalanced, operations only)")
+		if !strings.HasPrefix(resp, "accepted ") {
+			ctx.Res.Disagree(Violation{What: fmt.Sprintf("the channel operations of the real (unbalanced) run are not a run of the channel-operation model: %s (threads %v)", resp, threads), Class: "c05.ops", Witness: c})
+		}
+		return
+	}
 	ctx.Res.Count("channel-ops=checked")
 	if !strings.HasPrefix(resp, "accepted ") || strings.Contains(strings.SplitN(resp, "term=", 2)[1][:2*len(names)-1], "0") {
 		ctx.Res.Disagree(Violation{What: fmt.Sprintf("the channel operations of the real run are not a complete run of the channel-operation model: %s (threads %v)", resp, threads), Class: "c05.ops", Witness: c})
